@@ -51,6 +51,7 @@ Fixpoint revolve (fuel : nat) (opt0 : list (list Z)) (uf l cm : Z) : res (list o
   if l =? 1 then Ok l1_mem else
   if cm =? 1 then Ok ([OWM 0] ++ cm1_loop (Z.to_nat l) l (l-1) ++ [ORM 0; OWFM 1; OF 0 1; OB 1 0; ODFM 1; ODM 0]) else
   do lm <- map_res (fun j => do x <- tget opt0 (cm-1) (l-j); do y <- tget opt0 cm (j-1); Ok (j*uf + x + y)) (zrange 1 l);
+  if match lm with [] => true | _ => false end then Err IndexError (* argmin([]) : list[0] *) else
   let jmin := argmin lm in
   do s1 <- revolve f opt0 uf (l - jmin) (cm - 1);
   do s2 <- revolve f opt0 uf (jmin - 1) cm;
@@ -75,6 +76,7 @@ Fixpoint disk_revolve (fuel : nat) (opt0 : list (list Z)) (optinf : list Z) (uf 
     (if cm =? 0 then Ok [OWD 0; OF 0 1; OWFM 2; OF 1 2; OB 2 1; ODFM 2; ORD 0; OWFM 1; OF 0 1; OB 1 0; ODFM 1; ODD 0] else Ok l1_mem)
   else
   do lm <- map_res (fun j => do x <- lget optinf (l-j); do y <- tget opt0 cm (j-1); Ok (wd + j*uf + x + rd + y)) (zrange 1 l);
+  if match lm with [] => true | _ => false end then Err ValueError (* min([]) *) else
   do o <- tget opt0 cm l;
   if zmin_list lm 0 <? o then
     let jmin := argmin lm in
